@@ -43,9 +43,13 @@ var (
 		AbbreviatedKey:     compare.AbbreviatedKeyDisableSlash,
 		FormatKey:          pebble.DefaultComparer.FormatKey,
 		FormatValue:        pebble.DefaultComparer.FormatValue,
-		Separator:          pebble.DefaultComparer.Separator,
+		// The bytewise Separator/Successor of the default comparer are not consistent with
+		// CompareWithSlash: e.g. the bytewise separator of "p.x" and "p0" is "p/", which sorts
+		// after "p0" in the slash order, so that index blocks would point lookups to the wrong
+		// data block. Returning the key itself is always a valid separator / successor.
+		Separator:          func(dst, a, _ []byte) []byte { return append(dst, a...) },
 		Split:              pebble.DefaultComparer.Split,
-		Successor:          pebble.DefaultComparer.Successor,
+		Successor:          func(dst, a []byte) []byte { return append(dst, a...) },
 		ImmediateSuccessor: pebble.DefaultComparer.ImmediateSuccessor,
 		Name:               "oxia-slash-spans",
 	}
